@@ -91,7 +91,10 @@ func seqnoInvalid(seqno, reference uint16) bool {
 
 // set sets a bit in the bitmap, shifting if necessary
 func (bitmap *bitmap) set(seqno uint16) {
-	if !bitmap.valid || seqnoInvalid(seqno, bitmap.first) {
+	// Store invalidates the bitmap when the stream restarts; deciding it
+	// again here, relative to first rather than to the last seqno, made
+	// a packet that is late by exactly 256 reset the bitmap only.
+	if !bitmap.valid {
 		bitmap.first = seqno
 		bitmap.bitmap = 1
 		bitmap.valid = true
